@@ -55,7 +55,7 @@ def main():
         m = json.load(open(os.path.join(d, "meta.json")))
         own = m.get("property")
         c = m.get("checks", {})
-        sig = ", ".join(c.get(own, {}).get("signatures", [])[:2]) if m.get("caught_by_own_property") else ("*equivalent on the current tree* (" + m["obsolete_on_current_tree"][:200] + ")" if m.get("obsolete_on_current_tree") else "**missed**")
+        sig = ", ".join(c.get(own, {}).get("signatures", [])[:2]) if m.get("caught_by_own_property") else ("*equivalent on the current tree* (" + m["obsolete_on_current_tree"][:200] + ")" if m.get("obsolete_on_current_tree") else ("*not claimed* (" + m["not_claimed"][:200] + ")" if m.get("not_claimed") else "**missed**"))
         others = ", ".join(x for x in m.get("caught_by", []) if x != own)
         rows.append("| %s | %s | %s | %s | %s |" % (os.path.basename(d), own, (m.get("needs") or m.get("trigger") or "")[:160].replace("|", "/").replace("\n", " "), sig, others))
     open("/verif/seeded/MATRIX.md", "w").write("\n".join(rows) + "\n")
